@@ -102,7 +102,7 @@ fn check_string(s: &str, stage: &str, out: &mut WorkerOut) {
     if parsed.is_ok() != !matches!(ex, Res::Err(_) | Res::Panic(_)) && parsed.is_ok() == false && ex.is_ok() {
         out.fail("inconsistent:execute-ok-parse-err", case(), "execute returned Ok for a string parse_expression rejects");
     }
-    if t0.elapsed() > Duration::from_secs(2) {
+    if t0.elapsed() > Duration::from_secs(10) {
         out.fail("hang:slow-input", case(), format!("{:?} for a {}-byte input", t0.elapsed(), s.len()));
     }
     out.evals += 1;
